@@ -19,7 +19,7 @@ import numpy as np
 from hypothesis import strategies as st
 
 from vlib.core import SubCheck, Violation
-from vlib.grids import GridRejected, build_grid, chain_model_spec, grid_spec
+from vlib.grids import GRID_TYPES, GridRejected, build_grid, chain_model_spec, grid_spec
 from vlib.models import branch_of, build_copula_model, build_model
 
 PROPERTY_ID = "C02"
@@ -339,7 +339,7 @@ def _maybe_rare(draw, spec):
 @st.composite
 def strat_chain(draw, tier):
     spec = _maybe_rare(draw, draw(chain_model_spec()))
-    g = draw(grid_spec(max_refine=1))
+    g = draw(grid_spec(max_refine=1, types=GRID_TYPES + ["axes"]))
     return {"model": spec, "grid": g, "method": draw(st.sampled_from(METHODS_1D)),
             "chain_before_refine": draw(st.booleans()),
             "us": draw(st.lists(st.floats(0, 1, exclude_max=True), min_size=2, max_size=12))}
@@ -409,6 +409,17 @@ def _chain_fn_and_cuts(smp, method, proc, grid, q):
 
 
 def body_chain(case):
+    if case["grid"]["type"] == "axes" and case["grid"]["side"] != "both":
+        # states on one side of the origin only: every sampling option on that grid (each has its own code path from the
+        # position in the jump vector to the state increment)
+        out = []
+        for m in METHODS_1D:
+            out += _body_chain_one({**case, "method": m})
+        return out
+    return _body_chain_one(case)
+
+
+def _body_chain_one(case):
     np.random.seed(20260101)  # the inversion sampler falls back on numpy.random.choice: keep runs reproducible
     import rpylib.distribution.variate.table as table_mod
 
@@ -511,19 +522,6 @@ def body_chain(case):
     for u in hist:
         fr = _fresh_sampler(proc, grid, method) if method in ("INVERSION", "BINARYSEARCHTREEADAPTED1D") else fresh
         exp.append(_chain_fn_and_cuts(fr, method, proc, grid, q)[0](float(u)))
-    if got == exp and method == "INVERSION" and case.get("memo_capacity"):
-        small = mk()
-        small._max_storage = max(int(case["memo_capacity"]), len(small._cumulative_probabilities))
-        g_small = f_of(small)
-        for j, u in enumerate(hist):
-            if u > 1 - 1e-9:
-                continue
-            a = g_small(float(u))
-            if a != exp[j]:
-                out.append(Violation(f"{tag}/bounded-memo/answer-depends-on-history",
-                                     f"memo of {small._max_storage} entries, u={u!r} (call {j}): {a} vs fresh full-memo "
-                                     f"sampler {exp[j]}; {detail}"))
-                break
     if got != exp:
         j = next(i for i, (a, b) in enumerate(zip(got, exp)) if a != b)
         total = float(smp._cumulative_probabilities[-1]) if method == "INVERSION" else 1.0
@@ -540,6 +538,8 @@ def body_chain(case):
 def classify_chain(case):
     g = case["grid"]
     labels = [case["method"], g["type"], branch_of(case["model"])]
+    if g["type"] == "axes":
+        labels.append(f"axes/{g['side']}")
     if case["model"].get("rare"):
         labels.append("intensity-scaled-by-1e-9")
     if case.get("chain_before_refine") and g.get("refine", 0) > 0:
@@ -553,6 +553,13 @@ def strat_copula_chain(draw, tier):
     from props.c01 import strat_copula
 
     case = draw(strat_copula(tier))
+    if draw(st.integers(0, 4)) == 0:
+        # a user-assembled grid with few states on the left and several more on the right of the origin (the enumeration
+        # of Z^d then walks through many increments that lie beyond the left end of the grid)
+        d = len(case["margins"])
+        nl = draw(st.integers(1, 2))
+        case["grid"] = {"type": "axes", "h_rel": case["grid"]["h_rel"], "dimension": d, "refine": 0, "n_left": [nl] * d,
+                        "n_right": [nl + draw(st.integers(3, 5 if d == 2 else 3))] * d}
     # finite variation only here (constructor cost)
     case["us"] = draw(st.lists(st.floats(0, 1, exclude_max=True), min_size=2, max_size=8))
     # another chain (same margins, another copula) sampled on an equal grid earlier in the same process: samplers are
@@ -688,6 +695,18 @@ def body_copula_chain(case):
         return out
     fresh_f = f_of(mk())
     exp = [f_of(mk())(float(u)) if method == "INVERSION" else fresh_f(float(u)) for u in hist]
+    if method != "INVERSION":
+        # the vector entry point called twice with one array of uniforms (the caller's), and with a plain list
+        mine = arr.copy() * scale
+        keep = mine.copy()
+        fresh = mk()
+        first = [tuple(int(c) for c in g) for g in fresh.sample_with_us(mine)]
+        second = [tuple(int(c) for c in g) for g in fresh.sample_with_us(mine)]
+        listed = [tuple(int(c) for c in g) for g in fresh.sample_with_us([float(v) for v in keep])]
+        if not np.array_equal(mine, keep) or first != second or listed != first:
+            out.append(Violation(f"{tag}/vector-entry-point-changes-the-callers-uniforms-or-depends-on-their-container",
+                                 f"uniforms before {keep.tolist()[:4]} after {mine.tolist()[:4]}; first call {first[:4]}, "
+                                 f"second call {second[:4]}, list {listed[:4]}; {detail}"))
     if got != exp:
         j = next(i for i, (a, b) in enumerate(zip(got, exp)) if a != b)
         total = float(smp._cumulative_probabilities[-1]) if method == "INVERSION" else 1.0
@@ -803,13 +822,14 @@ SUBCHECKS = [
     SubCheck("chain-samplers", body_chain, classify_chain,
              rule="1-d chains (model x grid x 0..1 refinements) through create_sampling_method for each of the "
                   "six accepted options; measured law vs q/lambda, edge uniforms, batch call on the long-lived "
-                  "sampler vs single-uniform call on a fresh one",
+                  "sampler vs single-uniform call on a fresh one; grids include user-assembled axes (irregular gaps, "
+                  "states on one side of the origin only: all six options on each such grid)",
              strategy=strat_chain, budget={"quick": 720, "thorough": 2400},
-             shards={"quick": 16, "thorough": 16}),
+             shards={"quick": 16, "thorough": 16}, essential_labels=("axes/left-only", "axes/right-only")),
     SubCheck("copula-chain-samplers", body_copula_chain, classify_copula_chain,
              rule="copula chains d=2,3 (finite variation) x {INVERSION, adapted tree}: measured law vs cell "
                   "rate / intensity for every state, edge uniforms, history independence",
-             strategy=strat_copula_chain, budget={"quick": 128, "thorough": 640},
+             strategy=strat_copula_chain, budget={"quick": 128, "thorough": 640}, essential_labels=("axes",),
              shards={"quick": 16, "thorough": 16}),
     SubCheck("histories", body_history, classify_history,
              rule="operation sequences (draw u, repeat an earlier u, draw beyond everything cached, batch) on "
